@@ -34,12 +34,15 @@ PROPS = {
                           eng("accepted", "C01d", 700, 12000, ["sat", "nil", "panic"]),   # schemas and inputs re-drawn until the implementation reports no issues; values the schema places itself (Default, Catch)
                           sat("helpers", "helpers", 600, 8000, ["tests"], shard=300)]),   # a struct test lost by a derived schema is a skipped constraint
     "C02": dict(theorems=["C02_engine_computes_semantics", "C02_node_refines", "C02_all_failing_tests_reported", "C02_test_issues_at_own_path", "C02_missing_required_is_one_issue", "C02_coerce_failure_is_one_issue", "C02_struct_not_a_record", "C02_nil_iff_no_violation"], cone=ENGINE_CONE + ["Proofs/ExactP.v", "Proofs/AbsentP.v"], rule=ENGINE_RULE,
-                families=[eng("engine", "C02", 1200, 20000, ["nil", "issues", "panic"])]),
+                families=[eng("engine", "C02", 1200, 20000, ["nil", "issues", "panic"]),
+                          dict(name="fe", family="fe", profile="fe", quick=700, thorough=10000, tags=["nil", "issues", "panic"])]),   # the same through the front ends (lists with blank entries, repeated parameters)
     "C03": dict(theorems=["C03_engine_computes_semantics", "C03_leaf_is_coercion", "C03_documented_coercions", "C03_unnamed_fields_untouched", "C03_slice_keeps_length_and_order", "C03_pointer_allocates", "C03_absent_pointer_stays_nil"], cone=ENGINE_CONE + ["Model/Coerce.v", "Proofs/ExactP.v"], rule=ENGINE_RULE,
                 families=[eng("engine", "C03", 1200, 20000, ["dest", "panic"]),
                           eng("catching", "C05", 600, 10000, ["dest", "panic"])]),   # destinations next to nodes that catch: a leaf holds the coercion of its own input),
     "C04": dict(theorems=["C04_parse_absent_iff", "C04_falsy_values_are_present", "C04_validate_absent_examples", "C04_absent_default", "C04_absent_required", "C04_absent_optional", "C04_slice_absent_required", "C04_slice_absent_optional", "C04_ptr_absent_notnil", "C04_ptr_absent_optional", "C04_engine_computes_semantics"], cone=ENGINE_CONE + ["Proofs/AbsentP.v"], rule=ENGINE_RULE,
-                families=[eng("engine", "C04", 1200, 20000, ["nil", "issues", "dest", "calls", "panic"])]),
+                families=[eng("engine", "C04", 1200, 20000, ["nil", "issues", "dest", "calls", "panic"]),
+                          # Required / Optional / Default / Catch called in every order on one schema
+                          dict(name="builder", family="builder", profile="default", quick=900, thorough=15000, shard=150, tags=["nil", "issues", "dest", "panic"])]),
     "C05": dict(theorems=["C05_catch_own_node", "C05_catch_is_local", "C05_elements_are_independent", "C05_engine_computes_semantics"], cone=ENGINE_CONE + ["Proofs/Indep.v", "Proofs/CatchP.v"], rule=ENGINE_RULE,
                 families=[eng("engine", "C05", 1200, 20000, ["nil", "issues", "dest", "panic"])]),
     "C06": dict(theorems=["C06_try_provider_never_panics", "C06_lookup_never_panics", "C06_field_name_never_panics", "C06_parse_struct_never_panics",
